@@ -22,6 +22,35 @@ theorem envelope_roundtrip_legacy (e : Envelope) (h : EnvOK e) (hn : 0 < e.name.
     decEnvelope (encEnvLegacy e) = .ok e :=
   ThriftVerif.Wire.envelope_roundtrip_legacy e h hn
 
+/-- Framing detection is unambiguous: bytes that are the versioned form of one acceptable
+envelope and the legacy form of another (non-empty name) would have to carry the same envelope,
+so a reader that sniffs the framing can never turn one message into a different one. Each form
+on its own is injective as well: the bytes determine name, type, sequence id and body. -/
+theorem framings_never_confused (e e' : Envelope) (h : EnvOK e) (h' : EnvOK e')
+    (hn : 0 < e'.name.length) (hb : encEnvStrict e = encEnvLegacy e') : e = e' := by
+  have h1 := envelope_roundtrip_strict e h
+  have h2 := envelope_roundtrip_legacy e' h' hn
+  rw [hb, h2] at h1
+  injection h1 with h1
+  exact h1.symm
+
+theorem strict_envelope_injective (e e' : Envelope) (h : EnvOK e) (h' : EnvOK e')
+    (hb : encEnvStrict e = encEnvStrict e') : e = e' := by
+  have h1 := envelope_roundtrip_strict e h
+  have h2 := envelope_roundtrip_strict e' h'
+  rw [hb, h2] at h1
+  injection h1 with h1
+  exact h1.symm
+
+theorem legacy_envelope_injective (e e' : Envelope) (h : EnvOK e) (h' : EnvOK e')
+    (hn : 0 < e.name.length) (hn' : 0 < e'.name.length)
+    (hb : encEnvLegacy e = encEnvLegacy e') : e = e' := by
+  have h1 := envelope_roundtrip_legacy e h hn
+  have h2 := envelope_roundtrip_legacy e' h' hn'
+  rw [hb, h2] at h1
+  injection h1 with h1
+  exact h1.symm
+
 /-- Boundary of the legacy form (why the name quantifier starts at 1 byte). -/
 theorem legacy_empty_name_rejected (e : Envelope) (hn : e.name = []) :
     decEnvelope (encEnvLegacy e) = .error .bad :=
